@@ -18,8 +18,25 @@ from tools import wowm_front as F
 # TLC record -> front-end shape
 # ----------------------------------------------------------------------------------------------
 
-def _raise_members(ms, rename, fp=""):
-    """fp: prefix for member identifiers (declarations, count references, if variables, optional names)"""
+def letters(n):
+    """1 -> a, 2 -> b, ..., 27 -> aa: digit-free numbering (the Wireshark printer of the generator cuts
+    identifiers at their first digit, so identifiers with digits collide; see notes/C07.md)."""
+    s = ""
+    while n > 0:
+        n, r = divmod(n - 1, 26)
+        s = chr(ord("a") + r) + s
+    return s
+
+
+def _digitless(local):
+    """f3 -> c, E1 -> Ea, S2 -> Sb"""
+    head = local.rstrip("0123456789")
+    num = local[len(head):]
+    return (head if head != "f" else "") + (letters(int(num)) if num else "")
+
+
+def _raise_members(ms, rename, fname=lambda n: n):
+    """fname: renaming of member identifiers (declarations, count references, if variables, optional names)"""
     out = []
     for m in ms:
         if m["m"] == "decl":
@@ -27,18 +44,18 @@ def _raise_members(ms, rename, fp=""):
             if m["arr"] == "fixed":
                 arr = {"size": "fixed", "n": m["n"]}
             elif m["arr"] == "var":
-                arr = {"size": "var", "field": fp + m["field"]}
+                arr = {"size": "var", "field": fname(m["field"])}
             elif m["arr"] == "endless":
                 arr = {"size": "endless"}
             out.append({"m": "decl", "type": rename(m["type"]), "upcast": m["upcast"] or None, "array": arr,
-                        "name": fp + m["name"], "const": m["const"] if m["const"] != "" else None, "tags": {}})
+                        "name": fname(m["name"]), "const": m["const"] if m["const"] != "" else None, "tags": {}})
         elif m["m"] == "if":
-            arms = [{"conds": [{"var": fp + c["var"], "op": c["op"], "val": c["val"]} for c in a["conds"]],
-                     "body": _raise_members(a["body"], rename, fp)} for a in m["arms"]]
+            arms = [{"conds": [{"var": fname(c["var"]), "op": c["op"], "val": c["val"]} for c in a["conds"]],
+                     "body": _raise_members(a["body"], rename, fname)} for a in m["arms"]]
             out.append({"m": "if", "arms": arms,
-                        "else": _raise_members(m["els"], rename, fp) if m["haselse"] else None})
+                        "else": _raise_members(m["els"], rename, fname) if m["haselse"] else None})
         elif m["m"] == "optional":
-            out.append({"m": "optional", "name": fp + m["name"], "body": _raise_members(m["body"], rename, fp),
+            out.append({"m": "optional", "name": fname(m["name"]), "body": _raise_members(m["body"], rename, fname),
                         "tags": {}})
         else:
             raise ValueError("unknown member kind %r" % (m["m"],))
@@ -53,10 +70,13 @@ def raise_program(rec, prefix, slot_name, slot_opcode, versions="1.12", unique_f
     local = {d["name"] for d in rec["defs"]} | {s["name"] for s in rec["structs"]}
 
     def rename(t):
-        return prefix + t if t in local else t
+        return prefix + _digitless(t) if t in local else t
 
     tags = lambda: {"versions": [versions]}
-    fpre = (lambda c: "%s%s_" % (prefix.lower(), c.lower())) if unique_fields else (lambda c: "")
+    def fpre(c):
+        if unique_fields:
+            return lambda n: "%s%s_%s" % (prefix.lower(), _digitless(c).lower(), _digitless(n))
+        return lambda n: n       # the grammar's own names f1, f2, ... (unique inside the container only)
     objs = []
     for d in rec["defs"]:
         ens = [{"name": e["name"], "value": {"str": e["lit"]} if e["str"] else e["lit"], "tags": {}}
@@ -291,7 +311,7 @@ if __name__ == "__main__":
     # python3 -m tools.wowm_print <records.ndjson>: print every program as wowm text
     for i, line in enumerate(open(sys.argv[1])):
         rec = json.loads(line)
-        objs = raise_program(rec, "Vf%03d" % i, "SMSG_SLOT_%d" % i, "0x%04X" % (0x700 + i))
+        objs = raise_program(rec, "Vf" + letters(i + 27).capitalize(), "SMSG_SLOT", "0x%04X" % (0x700 + i))
         ok, text = roundtrip_ok(objs)
         print("/* program %d roundtrip=%s features=%s */" % (i, ok, sorted(features(rec))))
         print(text)
